@@ -370,6 +370,16 @@ func (p *Peer) VerifyData(client bool) []byte {
 	return p.Prof.PRF(p.Master, label, p.Prof.Hash(p.Transcript), 12)
 }
 
+// EKM is the RFC 5705 exporter of the current session: PRF(master, label, client_random ||
+// server_random [|| len(context) || context]).
+func (p *Peer) EKM(label string, context []byte, n int) []byte {
+	seed := append(append([]byte{}, p.CR...), p.SR...)
+	if context != nil {
+		seed = append(append(seed, byte(len(context)>>8), byte(len(context))), context...)
+	}
+	return p.Prof.PRF(p.Master, label, seed, n)
+}
+
 // ---------------------------------------------------------------------------------------------
 // codecs
 
